@@ -80,6 +80,7 @@ class ExactGP(GP):
         self.likelihood = likelihood
 
         self.prediction_strategy = None
+        self._strategy_lazily_evaluated = None
 
     @property
     def train_targets(self) -> tuple[Tensor] | None:
@@ -301,8 +302,11 @@ class ExactGP(GP):
                         GPInputWarning,
                     )
 
-            # Get the terms that only depend on training data
-            if self.prediction_strategy is None:
+            # Get the terms that only depend on training data.
+            # Which strategy class is used depends on whether kernels are lazily evaluated, so a strategy
+            # that was built under the other setting must not be reused.
+            lazily_evaluated = settings.lazily_evaluate_kernels.on()
+            if self.prediction_strategy is None or self._strategy_lazily_evaluated != lazily_evaluated:
                 train_output = super().__call__(*train_inputs, **kwargs)
 
                 # Create the prediction strategy for
@@ -312,6 +316,7 @@ class ExactGP(GP):
                     train_labels=self.train_targets,
                     likelihood=self.likelihood,
                 )
+                self._strategy_lazily_evaluated = lazily_evaluated
 
             # Concatenate the input to the training input
             full_inputs = []
